@@ -1216,6 +1216,9 @@ class Interp(object):
             if ko == 'enum' and isinstance(other, SV):
                 sort, consts, none, cls = enum_sort(other.cls)
                 return other.t == none
+            if ko == 'obj' and isinstance(other, SV):
+                # an opaque value (e.g. what a store holds for a line) may be None: an uninterpreted predicate of the value
+                return z3.Function('obj_is_none', other.t.sort(), z3.BoolSort())(other.t)
             return False
         if ka == 'enum' and kb == 'enum':
             ca = a.cls if isinstance(a, SV) else type(a)
